@@ -6,7 +6,7 @@
    (2) The repaired model still depends on the insertion order inside a collision
    bucket: history independence fails without the collision_free hypothesis. *)
 From Coq Require Import List ZArith Bool.
-From GZ Require Import C15.Model.
+From GZ Require Import C15.Model C15.Cluster.
 Import ListNotations.
 Open Scope Z_scope.
 
@@ -106,3 +106,77 @@ Proof.
   - intros n. vm_compute. tauto.
   - vm_compute. discriminate.
 Qed.
+
+(* (3) seeded change C15-3 — cacheCluster.DelCtx rewritten to "resolve the owners first, then delete
+   node by node" with ONE scratch slice (batch = batch[:0]) passed variadically to every node's
+   DelCtx.  A node whose DEL fails keeps that very slice for its delayed retry
+   (asyncRetryDelCache's closure); when the retry fires the slice holds what the nodes processed
+   later wrote into it.  [overlay] is the aliasing: a node's batch overwrites a prefix of the
+   buffer; the failed node re-reads its prefix length from the final buffer. *)
+Section PinnedCluster.
+Variable insts : list inst.
+Variable keys : list (Z * Z).
+Variable delays : list Z.
+
+Definition overlay (buf new : list Z) : list Z := new ++ skipn (length new) buf.
+
+Definition shared_del_cmd (final : list Z) (i s : Z) (ks : list Z) (st : cstate) : cstate * list touch :=
+  let ts := map (fun k => (i, k, s)) ks in
+  if fails st s then
+    match delays with
+    | d0 :: _ => (add_pending (mkPend d0 d0 i s (firstn (length ks) final)) st, ts)
+    | [] => (st, ts)
+    end
+  else (add_gone s ks st, ts).
+
+Definition shared_del_keys (i : Z) (ks : list Z) (st : cstate) : cstate * list touch :=
+  match ks with
+  | _ :: _ :: _ =>
+    if is_cache insts i then
+      let g := group insts keys i ks [] in
+      let final := fold_left overlay (map snd g) [] in
+      seq_cmds (fun e => shared_del_cmd final i (fst e) (snd e)) g st
+    else del_keys insts keys delays i ks st
+  | _ => del_keys insts keys delays i ks st
+  end.
+
+Definition shared_cstep (st : cstate) (o : cop) : cstate * list touch :=
+  match o with
+  | CDel i ks => shared_del_keys i ks st
+  | _ => cstep insts keys delays st o
+  end.
+
+Fixpoint shared_crun (st : cstate) (ops : list cop) : list (cstate * list touch) :=
+  match ops with
+  | [] => []
+  | o :: ops' => let r := shared_cstep st o in r :: shared_crun (fst r) ops'
+  end.
+End PinnedCluster.
+
+(* two nodes (servers 0 and 1) with virtual nodes 100..199 and 200..299; key 0 hashes to 150
+   (node 0), key 1 to 250 (node 1) *)
+Definition sc_insts : list inst :=
+  [mkInst true (run (fun n i => n * 100 + i) 100 [OAdd (mkNode 1 0); OAdd (mkNode 2 1)])].
+Definition sc_keys : list (Z * Z) := [(150, 0); (250, 0)].
+(* server 0 is down while Del(key0, key1) runs; it is up again when the cleaner ticks *)
+Definition sc_script : list cop := [CFault 0 true; CDel 0 [0; 1]; CFault 0 false; CTick].
+
+Example sc_owners : owner sc_insts sc_keys 0 0 = Some 0 /\ owner sc_insts sc_keys 0 1 = Some 1.
+Proof. vm_compute. auto. Qed.
+
+(* the retry of node 0 deletes key 1 — which the ring assigns to node 1 — on server 0 *)
+Theorem shared_scratch_refuted :
+  exists insts keys delays ops r i k s,
+    In r (shared_crun insts keys delays cinit ops) /\ In (i, k, s) (snd r) /\ owner insts keys i k <> Some s.
+Proof.
+  exists sc_insts, sc_keys, [1; 5], sc_script.
+  eexists. exists 0, 1, 0. split; [|split].
+  - vm_compute. right. right. right. left. reflexivity.
+  - cbn [snd]. left. reflexivity.
+  - vm_compute. discriminate.
+Qed.
+
+(* the model of the code as it is, on the same script: the retry deletes key 0 on server 0 *)
+Example sc_as_is :
+  map snd (crun sc_insts sc_keys [1; 5] cinit sc_script) = [[]; [(0, 0, 0); (0, 1, 1)]; []; [(0, 0, 0)]].
+Proof. vm_compute. reflexivity. Qed.
